@@ -507,6 +507,10 @@ func parseTraversalStep(nativeStep hcl.Traverser, from inputTokens) (before inpu
 			key := newNumber(valToken)
 			step.key = children.Append(key)
 			children.AppendUnstructuredTokens(valAfter.Tokens())
+		default:
+			// A literal key of another type (true, false, null): there is no
+			// dedicated node type for it, but its tokens must be retained.
+			children.AppendUnstructuredTokens(keyTokens.Tokens())
 		}
 
 		children.AppendUnstructuredTokens(cBrack.Tokens())
